@@ -22,7 +22,8 @@ def output_exact(printed: str, expected: str, failed: bool) -> bool:
     pre: len(printed) <= 2 and len(expected) <= 2
     post: _
     """
-    tick()
+    if tick():
+        return True
     r, sb = fresh()
     state["term"], state["text"] = (1 if failed else 0), printed
     try:
@@ -54,7 +55,8 @@ def regex_menu(g0: bool, g1: bool, g2: bool, t0: bool, t1: bool, t2: bool, t3: b
     pre: True
     post: _
     """
-    tick()
+    if tick():
+        return True
     import re
     ti = bits(t0, t1, t2, t3)
     if ti >= len(TEXTS):
